@@ -137,9 +137,16 @@ impl<'a> ExpressionEvaluator<'a> {
                     ));
                 };
 
-                Ok(vec![DataType::Bool(Bool(
-                    (inner[0] >= low[0] && inner[0] <= high[0]) != *negated,
-                ))])
+                // x BETWEEN a AND b is (x >= a AND x <= b) under three-valued logic: a NULL operand
+                // gives NULL (unless the other comparison is already false), and NOT NULL stays NULL.
+                let kind = Some(DataTypeKind::Bool);
+                let ge = self.eval_binary_op(inner.clone(), low, BinaryOperator::Ge, kind)?;
+                let le = self.eval_binary_op(inner, high, BinaryOperator::Le, kind)?;
+                let both = self.eval_binary_op(ge, le, BinaryOperator::And, kind)?;
+                Ok(vec![match both.first() {
+                    Some(DataType::Bool(Bool(b))) => DataType::Bool(Bool(*b != *negated)),
+                    _ => DataType::Null,
+                }])
             }
             BoundExpression::Exists { query, negated } => {
                 todo!("Subquery evaluation is not yet implemented")
